@@ -559,6 +559,13 @@ Definition frame_wf (c : cfg) (f : frame) : bool :=
 Definition int_wf (n : Z) : bool := (- 9007199254740992 <? n) && (n <? 9007199254740992).
 Definition bits_wf (b : Z) : bool := (0 <=? b) && (b <? 18446744073709551616).
 
+(* consecutive media tags the client receives are less than 2^31 ms (24.8 days) apart *)
+Fixpoint steps_ok (prev : Z) (l : list frame) : bool :=
+  match l with
+  | [] => true
+  | f :: r => (- TWO31 <=? frame_ms f - prev) && (frame_ms f - prev <? TWO31) && steps_ok (frame_ms f) r
+  end.
+
 Definition cfg_wf (c : cfg) : bool :=
   all_bytes (c_sps c) && all_bytes (c_pps c) && all_bytes (c_vps c) && all_bytes (c_hvcc c) &&
   all_bytes (c_asc c) && all_bytes (c_date c) &&
@@ -567,3 +574,7 @@ Definition cfg_wf (c : cfg) : bool :=
   (if c_hevc c then (length (c_hvcc c) =? 21)%nat && hvcc_fixed_ok (c_hvcc c) else 4 <=? zlen (c_sps c)) &&
   bits_wf (c_fr c) && bits_wf (c_vdr c) && bits_wf (c_adr c) &&
   int_wf (c_width c) && int_wf (c_height c) && int_wf (c_srate c) && int_wf (c_ssize c).
+
+Definition case_wf (c : cfg) (fs : list frame) (k : nat) : bool :=
+  cfg_wf c && forallb (frame_wf c) fs &&
+  (let live := skipn k (live_frames c fs) in steps_ok (first_ms live) live).
